@@ -126,6 +126,8 @@ pub enum Rec {
     BeforeDrop(u32),
     AfterDrop(u32),
     Cancel(u32),
+    /// `cancel()` on the token of handle h has returned
+    CancelDone(u32),
     Note(&'static str),
     /// model: field (cell, field) now has value and durability (0..3)
     SetField(u32, u32, u16, u8),
